@@ -466,6 +466,32 @@ class Crate:
         self.scc = comp
         return g
 
+    def is_newtype(self, path):
+        """a crate tuple struct with exactly one field whose ordering / equality are derived and whose Display (if any) prints that field: a
+        value of it behaves like the wrapped value (`GroupIndex(pub u32)` for a bind group number) - the constructor and `.0` are read as the
+        identity.  Anything hand-written about it (Ord, PartialEq, a Display that prints something else) makes it opaque."""
+        cache = self.__dict__.setdefault('_newtypes', {})
+        if path in cache:
+            return cache[path]
+        st = self.structs.get(path)
+        ok = bool(st) and len(st.get('fields', [])) == 1 and st['fields'][0].get('name') == '0'
+        if ok:
+            mod_, short_ = path.rsplit('::', 1)
+            for q, f in self.fns.items():
+                if q.startswith(f'{mod_}::<{short_} as '):
+                    tr = q[len(f'{mod_}::<{short_} as '):].split('>::')[0]
+                    if tr.split('::')[-1] == 'Display':
+                        b = f.get('body', {}).get('stmts', [])
+                        m_ = b[0].get('expr') if len(b) == 1 and b[0].get('k') == 'ExprStmt' else None
+                        plain = bool(m_) and m_.get('k') == 'Macro' and m_.get('name') == 'write' and len(m_.get('args') or []) == 3 and \
+                            m_['args'][1].get('k') == 'Lit' and m_['args'][1].get('v') == '{}' and m_['args'][2].get('k') == 'Field' and m_['args'][2].get('member') == '0' and \
+                            m_['args'][2]['base'].get('k') == 'Path' and m_['args'][2]['base']['path']['segs'] == ['self']
+                        ok = ok and plain
+                    elif tr.split('::')[-1].split('<')[0] in ('Ord', 'PartialOrd', 'PartialEq', 'Eq', 'Hash'):
+                        ok = False      # hand-written comparison: not the wrapped value's
+        cache[path] = ok
+        return ok
+
     def context_struct(self, mod, ty_text):
         """the crate struct named by a parameter type if it is a context record: a struct with named fields one of which is the module or the
         write options (e.g. `StructContext { module, options, layouter, global_variable_types }`)"""
@@ -1473,6 +1499,10 @@ class Interp:
         return ('cast', self.expr(e['expr'], env), e['ty'].replace(' ', ''))
 
     def e_Field(self, e, env, **kw):
+        if e.get('member') == '0' and self.frame.get('callee') in self.c.fns:
+            bty = self.c.static_type(e['base'], self.frame['callee'])
+            if bty and self.c.is_newtype(bty):
+                return self.expr(e['base'], env)      # `.0` of a transparent newtype: the value itself
         b = self.expr(e['base'], env)
         return self.field(b, e['member'])
 
@@ -2018,6 +2048,8 @@ class Interp:
                 self.inline_calls.append((self.frame['callee'], p, e['line']))
                 return self.call_fn(p, args, line=e['line'])
             last = segs[-1]
+            if len(args) == 1 and p in self.c.structs and self.c.is_newtype(p):
+                return args[0]      # transparent newtype: the wrapped value
             if last == 'from' and len(args) == 1 and len(segs) >= 2:
                 tyq = self.resolve(segs[:-1])
                 if tyq in self.c.enums or tyq in self.c.structs:
